@@ -108,7 +108,7 @@ def extra_c14(tier, seed):
                 with open(os.path.join(d, "finding.json"), "w") as f:
                     json.dump({"property": "C14", "profile": "n%d" % n, "profile_def": prof, "finding": {"why": what},
                                "detail": v["rejected"][0]["detail"][:1500] if v["rejected"] else ""}, f, indent=1)
-                if bad or _dispatch_related(v["rejected"][0]):
+                if bad:     # the verdict comes from the C14 monitors; a conformance mismatch alone is drift (it may have any cause)
                     out["findings"].append({"what": "N=%d: %s" % (n, what), "signature": "N=%d %s" % (n, what[:60]), "replay": d})
             elif not [f for f in v["findings"] if f[0] != "C14"]:
                 os.remove(base + ".tlc.ndjson")
